@@ -24,6 +24,9 @@ import (
 
 	"github.com/crewjam/saml"
 	"github.com/crewjam/saml/samlidp"
+	"io"
+	"net/http"
+	"net/http/httptest"
 )
 
 // ---------------------------------------------------------------------------
@@ -603,6 +606,59 @@ func TestC20RacePairs(t *testing.T) {
 		rep.Eval("FreeRun", strings.Join(names, "+"))
 	}
 	rep.Extra["free_running_rounds"] = len(rounds)
+	// A client that uploads slowly: PUT /services/{id} (and PUT /users, /shortcuts) whose body arrives only after the OTHER
+	// request has been answered.  No request may wait for a slow client of another request: the other one must
+	// complete while the upload is still in flight.
+	slow := 0
+	for _, up := range []struct{ name, path, body string }{
+		{"PUT /services/s2 (slow upload)", "/services/s2", string(spMetaXML(c20SP2, c20ACS2, true))},
+		{"PUT /users/carol (slow upload)", "/users/carol", `{"name":"carol","password":"pw-carol"}`},
+		{"PUT /shortcuts/c2 (slow upload)", "/shortcuts/c2", `{"service_provider":"` + c20SP1 + `"}`},
+	} {
+		for i := range scs {
+			if hangs >= 2 {
+				break
+			}
+			e := c20NewEnv()
+			q := scs[i].Req(e)
+			otherDone := make(chan struct{})
+			uploadDone := make(chan struct{})
+			pr, pw := io.Pipe()
+			go func() {
+				defer close(uploadDone)
+				r, _ := http.NewRequest("PUT", idpSrvRoot+up.path, pr)
+				r.RemoteAddr = "192.0.2.9:4321"
+				e.srv.ServeHTTP(httptest.NewRecorder(), r)
+			}()
+			go func() {
+				half := len(up.body) / 2
+				pw.Write([]byte(up.body[:half])) // the first half arrives, then the client stalls ...
+				<-otherDone                      // ... until the other request has been answered (or given up on)
+				pw.Write([]byte(up.body[half:]))
+				pw.Close()
+			}()
+			time.Sleep(5 * time.Millisecond) // let the upload reach its body read
+			answered := make(chan struct{})
+			go func() { defer close(answered); c20Serve(e.srv, q) }()
+			select {
+			case <-answered:
+			case <-time.After(c20FinishWait):
+				hangs++
+				rep.Violation("C20:free-run:waits-for-slow-upload:"+up.name+"+"+scs[i].Name, fmt.Sprintf("request %q is not answered within %s while the body of %q is still arriving: it waits for another client's upload", scs[i].Name, c20FinishWait, up.name), map[string]any{"requests": []string{up.name, scs[i].Name}})
+			}
+			close(otherDone)
+			select {
+			case <-uploadDone:
+			case <-time.After(c20FinishWait):
+				hangs++
+				rep.Violation("C20:free-run:hang:"+up.name+"+"+scs[i].Name, fmt.Sprintf("the upload %q never completes after %q (waited %s)", up.name, scs[i].Name, c20FinishWait), map[string]any{"requests": []string{up.name, scs[i].Name}})
+			}
+			<-answered
+			slow++
+			rep.Eval("SlowUpload", up.name+"+"+scs[i].Name)
+		}
+	}
+	rep.Extra["slow_upload_rounds"] = slow
 }
 
 // c20VisibleRand has no state of its own (nothing that would order two readers).
